@@ -41,6 +41,9 @@ class Universe:
         self.ns["true"], self.ns["false"] = claripy.true(), claripy.false()
         # the variable x carrying an annotation: same meaning, but an AST whose hash differs from process to process
         self.ns["xa"] = self.sym["x"].annotate(claripy.annotation.UninitializedAnnotation())
+        self.ns["xs"] = self.sym["x"].annotate(claripy.annotation.SimplificationAvoidanceAnnotation())
+        self.ns["fa"] = claripy.FPS("%s_fa" % tag, claripy.FSORT_DOUBLE, explicit_name=True)   # identity checks only (no value tables)
+        self.ns["FPV"], self.ns["FSORT_DOUBLE"] = claripy.FPV, claripy.FSORT_DOUBLE
 
     def parse(self, s):
         """expression language of replays: a Python expression over the variables and claripy constructors.
@@ -225,10 +228,10 @@ BOOLS = ["b", "ULT(x, 3)", "x == 5", "Or(x == 1, x == 2)", "SLT(y, 0)", "ULE(x, 
 #  solution{e,v,extra}  is_true/is_false{e,extra}  simplify  downsize  branch (creates solver index len(solvers))
 
 def gen_history(rng, length, calpha=CONSTRAINTS, ealpha=EXPRS, balpha=BOOLS, uni=None, max_solvers=4,
-                weights=None, threads=0, replace=0.0):
+                weights=None, threads=0, replace=0.0, replace_any=False):
     if threads:
         # thread hand-off: the same history, each call tagged with the thread that makes it (runs of calls per thread)
-        hist, t = gen_history(rng, length, calpha, ealpha, balpha, uni, max_solvers, weights, replace=replace), 0
+        hist, t = gen_history(rng, length, calpha, ealpha, balpha, uni, max_solvers, weights, replace=replace, replace_any=replace_any), 0
         for d in hist:
             if rng.random() < 0.3:
                 t = rng.randrange(threads + 1)
@@ -267,7 +270,9 @@ def gen_history(rng, length, calpha=CONSTRAINTS, ealpha=EXPRS, balpha=BOOLS, uni
             hist.append({"s": s, "op": "batch_eval", "es": es, "n": 300, "extra": []})
             continue
         if op == "add":
-            fresh = [v for v in ("x", "y", "z") if v not in used[s]]
+            # replace_any (twin runs only, where no reference reading is needed): also variables already constrained or
+            # replaced before — a replacement that changes makes everything rewritten with the old one stale
+            fresh = [v for v in ("x", "y", "z") if replace_any or v not in used[s]]
             if replace and fresh and rng.random() < replace:
                 # SolverReplacement.add_replacement(variable, constant) for a variable no constraint mentions yet: from
                 # then on the solver answers as if `variable == constant` had been added (which is how the reference
@@ -878,9 +883,10 @@ class _Worker:
         self._t.join(5)
 
 
-def run_history(uni, cls, cfg, hist, on_step=None):
+def run_history(uni, cls, cfg, hist, on_step=None, checks=None):
     """Run on the real code with the per-answer oracle.  Returns (failures, outcomes);
-    failures = [(index, kind, explanation)].  History entries that reference a missing solver are skipped."""
+    failures = [(index, kind, explanation)].  History entries that reference a missing solver are skipped.
+    `checks` (a list) receives, per call, how many solver checks the call made (the positions a give-up can be injected at)."""
     import claripy.backends
     bz = claripy.backends.z3
     saved = bz.reuse_z3_solver
@@ -908,10 +914,12 @@ def run_history(uni, cls, cfg, hist, on_step=None):
                 pool[t] = _Worker()
             return pool[t].call(lambda: apply_op(uni, solvers, d))
         _pools.append(pool)
-        if any(d.get("fault") is not None for d in hist):
+        if checks is not None or any(d.get("fault") is not None for d in hist):
             inj = FaultInjector()
             inj.install()
         for k, d in enumerate(hist):
+            if checks is not None and inj and k > 0:
+                checks.append(inj.idx)
             if d.get("rel"):
                 # relative addressing (histories with split/combine/merge, where the number of solvers is not known
                 # to the generator): indices are taken modulo the number of solvers alive
@@ -970,6 +978,8 @@ def run_history(uni, cls, cfg, hist, on_step=None):
                 fails.append((k, j[0], j[1]))
             if on_step:
                 on_step(k, d, out, solvers, ref)
+        if checks is not None and inj and hist:
+            checks.append(inj.idx)
         return fails, outs
     finally:
         for pool in _pools:
@@ -1051,13 +1061,18 @@ def run_twin(uni, cls, cfg, hist, mode, cut=0):
             bz._tls.solver = None
 
 
-def twin_search(uni, rng, cls, mode, n, length, weights=None):
+def twin_search(uni, rng, cls, mode, n, length, weights=None, approx=0.0):
     """random histories with user-level replacements; returns the shrunk failing ones (each reproduced twice)"""
     w = weights or {"add": 24, "satisfiable": 8, "eval": 14, "batch_eval": 5, "min": 8, "max": 8, "solution": 8, "simplify": 3,
                     "downsize": 8, "branch": 4}
     found, ran = [], 0
     for _ in range(n):
-        hist = gen_history(rng, length, weights=w, replace=0.3)
+        hist = gen_history(rng, length, weights=w, replace=0.3, replace_any=rng.random() < 0.6)
+        if approx:
+            # hybrid solvers: some of the queries in approximate mode (the approximate side keeps replacements of its own)
+            for d in hist:
+                if d["op"] in ("satisfiable", "eval", "batch_eval", "min", "max", "solution") and rng.random() < approx:
+                    d["approx"] = True
         cut = rng.randrange(1, max(2, len(hist) - 2)) if mode == "restored" else 0
         ran += len(hist)
         cfg = {"track": False, "reuse": False}
